@@ -69,9 +69,7 @@ fn valid_frame(big: bool) -> BoxedStrategy<RFrame> {
 }
 
 fn unknown_id() -> BoxedStrategy<u8> {
-    prop_oneof![Just(9u8), Just(20u8), Just(255u8), Just(0x53u8), Just(0x55u8), 9u8..=255]
-        .prop_filter("not the handshake marker", |id| *id != 0x54)
-        .boxed()
+    prop_oneof![Just(9u8), Just(20u8), Just(255u8), Just(0x53u8), Just(0x55u8), 9u8..0x54, 0x55u8..=255].boxed()
 }
 
 fn item(big: bool) -> BoxedStrategy<Item> {
@@ -438,7 +436,7 @@ fn task_strategy() -> BoxedStrategy<TaskCase> {
     let fault = prop_oneof![
         3 => (prop::sample::select(vec![0u8, 1, 2, 3, 4, 6, 8, 7]), 1u32..40, 0u16..40).prop_map(|(id, len, body_len)| Fault::WrongLen { id, len, body_len }),
         3 => (prop_oneof![Just(65537u32), 65537u32..200000, Just(u32::MAX)], prop_oneof![0u8..9, unknown_id()], prop_oneof![1 => 0u32..200, 3 => Just(70000u32)]).prop_map(|(len, id, filler)| Fault::Oversize { len, id, filler }),
-        3 => (valid_frame(false).prop_filter("has a body", |f| !matches!(f, RFrame::KeepAlive)), any::<u16>()).prop_map(|(f, k)| Fault::TruncatedThenEof(f, k)),
+        3 => (valid_frame(false).prop_map(|f| if matches!(f, RFrame::KeepAlive) { RFrame::Have(1) } else { f }), any::<u16>()).prop_map(|(f, k)| Fault::TruncatedThenEof(f, k)),
         1 => Just(Fault::CleanEof),
     ];
     (prop::bool::weighted(0.8), vec(pre, 0..5), fault, vec(any::<u16>(), 0..4), any::<u64>())
